@@ -259,10 +259,8 @@ func (g *Gen) genDataFrame(reg []regEntry, o frameOpts) string {
 		mt = r.Pick(2, 3, 4, 5)
 	}
 	up := mt == 2 || mt == 4
-	major := 0
-	if !o.valid && r.Chance(1, 10) {
-		major = r.Intn(4)
-	}
+	// the Major field enters the MICs and the MHDR layout: mostly LoRaWAN R1 (0), the other three values regularly
+	major := r.Pick(0, 0, 0, 0, 0, 1, 2, 3)
 	fc := make([]byte, 5)
 	for i := range fc {
 		fc[i] = '0'
@@ -410,9 +408,11 @@ func (g *Gen) genCFList(valid bool) string {
 func (g *Gen) genJoinFrame(kind string, valid bool) string {
 	r := g.r
 	mic := hx(r.Bytes(4))
+	// the Major field (MHDR bits 1..0) enters every MIC: all four values, mostly LoRaWAN R1
+	major := r.Pick(0, 0, 0, 1, 2, 3)
 	switch kind {
 	case "JR":
-		return fmt.Sprintf("0 0 %s JR %s %s %d", mic, g.u64dec(), g.u64dec(), r.U16())
+		return fmt.Sprintf("0 %d %s JR %s %s %d", major, mic, g.u64dec(), g.u64dec(), r.U16())
 	case "JA":
 		jn := uint32(r.Intn(1 << 24))
 		if r.Chance(1, 10) {
@@ -436,21 +436,21 @@ func (g *Gen) genJoinFrame(kind string, valid bool) string {
 				rx1 = r.Intn(256)
 			}
 		}
-		return fmt.Sprintf("1 0 %s JA %d %d %d %d %d %d %d %s", mic, jn, r.Intn(1<<24), r.U32(), r.Intn(2), rx2, rx1, rxd, g.genCFList(valid))
+		return fmt.Sprintf("1 %d %s JA %d %d %d %d %d %d %d %s", major, mic, jn, r.Intn(1<<24), r.U32(), r.Intn(2), rx2, rx1, rxd, g.genCFList(valid))
 	case "RJ02":
 		t := r.Pick(0, 2)
 		if !valid && r.Chance(1, 5) {
 			t = r.Intn(256)
 		}
-		return fmt.Sprintf("6 0 %s RJ02 %d %d %s %d", mic, t, r.Intn(1<<24), g.u64dec(), r.U16())
+		return fmt.Sprintf("6 %d %s RJ02 %d %d %s %d", major, mic, t, r.Intn(1<<24), g.u64dec(), r.U16())
 	case "RJ1":
 		t := 1
 		if !valid && r.Chance(1, 5) {
 			t = r.Intn(256)
 		}
-		return fmt.Sprintf("6 0 %s RJ1 %d %s %s %d", mic, t, g.u64dec(), g.u64dec(), r.U16())
+		return fmt.Sprintf("6 %d %s RJ1 %d %s %s %d", major, mic, t, g.u64dec(), g.u64dec(), r.U16())
 	default: // proprietary
-		return fmt.Sprintf("7 0 %s DATA %s", mic, hx(r.Bytes(g.payloadLen())))
+		return fmt.Sprintf("7 %d %s DATA %s", major, mic, hx(r.Bytes(g.payloadLen())))
 	}
 }
 
